@@ -3,11 +3,22 @@
 import json, sys
 pid = sys.argv[1]
 n = sys.argv[2] if len(sys.argv) > 2 else "2"
+start = int(sys.argv[3]) if len(sys.argv) > 3 else 1
+round_tag = sys.argv[4] if len(sys.argv) > 4 else ""
 for l in open('/verif/properties.jsonl'):
     p = json.loads(l)
     if p['id'] == pid:
         break
-wt = f"/tmp/wt-{pid}"
+wt = f"/tmp/wt{round_tag}-{pid}"
+import glob, os
+avoid = []
+for d in sorted(glob.glob(f"/verif/seeded/{pid}_*/meta.json")):
+    try:
+        avoid.append("- " + (json.load(open(d)).get("summary") or "")[:260].replace("\n", " "))
+    except Exception:
+        pass
+avoid_txt = ("\n\nThese changes have already been studied; produce DIFFERENT ones (other functions, other mechanisms):\n" + "\n".join(avoid)) if avoid else ""
+last = start + int(n) - 1
 print(f"""You are testing how robust a Go library is against subtle regressions. Work ONLY inside the git worktree {wt} (a checkout of the library github.com/vulcand/oxy/v2, a set of net/http middlewares). Do not read or touch /repo or /verif, and ignore every file whose name starts with verif_contracts (they are comment-only and irrelevant to you).
 
 Every go command needs this environment (there is no network): export GOFLAGS=-mod=mod GOPROXY=off GOSUMDB=off GOTOOLCHAIN=local
@@ -23,10 +34,12 @@ The property under study:
 
 Task: produce {n} DIFFERENT small source changes ("seeded bugs") to the library's non-test code, each of which
   (a) still compiles (go build ./... and go vet-free test compile: go test -vet=off -count=1 -run '^$' ./...),
-  (b) still passes the library's existing test suite unchanged (go test -vet=off -count=1 ./... ; run at least the packages you touched plus their dependants; the whole suite takes a few minutes, it must pass), and
+  (b) still passes the library's existing test suite unchanged (go test -vet=off -count=1 $(go list ./... | grep -v /seeded/) ; the seeded/ directory you create must be excluded because its demo files are not a package; run at least the packages you touched plus their dependants; the whole suite takes a few minutes, it must pass), and
   (c) breaks the property above in a way that needs something SPECIFIC to manifest: a particular interleaving, a fault or panic at a particular point, a multi-step sequence of operations, an unusual input, or two cooperating sites that each look fine alone. Avoid changes that ordinary use would expose at once. Prefer realistic mistakes a maintainer could make in a refactoring (off-by-one, dropped reset, wrong comparison, missing defer, copying a pointer instead of a value, wrong lock, reordered statements), touching 1-10 lines.
 
-For each change k = 1..{n} create the directory {wt}/seeded/{pid}_k/ containing:
+{avoid_txt}
+
+For each change k = {start}..{last} create the directory {wt}/seeded/{pid}_k/ containing:
   - patch.diff : the change as a unified diff against the worktree's HEAD (git diff output, applies with `git apply` at the repository root; it must contain ONLY the change to non-test library code),
   - demo_test.go : a Go test file (package clause of the package it must be placed in; say in its first comment line `// place in: <dir relative to repo root>`) that FAILS with the change applied and PASSES without it; it may be an in-package test using unexported identifiers; it must be deterministic (use the frozen clock of internal/holsterv4/clock where time matters: clock.Freeze / clock.Advance, as the existing tests do) and finish in under 30 s,
   - meta.json : {{"property": "{pid}", "summary": "...", "needs_to_manifest": "...", "files_changed": [...], "commands_run": [...]}}.
